@@ -228,6 +228,46 @@ func c09b(c *Ctx) {
 		}
 		c.Check(n == 3, "parseTextValue/returns", c.W.FuncPos(fn), "three text forms (format, string, typed string)", fmt.Sprintf("found %d successful returns, expected 3", n))
 	}
+	// (3) what is terminated is what was written: at every call of formatTextTerminator the text
+	// is the literal of a string token as the lexer delivered it, or the text format() returned
+	// (with its own string type) — never a trimmed, re-cased or otherwise processed copy
+	if ftt := c.Fn("parser.Parser.formatTextTerminator"); ftt != nil {
+		pfs := c.Fn("parser.Parser.parseFormatStringOperator")
+		n := 0
+		for _, ci := range c.W.callsTo(ftt) {
+			f := ci.Parent()
+			if isTestFunc(c.W, f) {
+				continue
+			}
+			n++
+			a := ci.Common().Args
+			key := fmt.Sprintf("terminated-content/%s@%d", c.W.FuncKey(f), c.T(f).callOrd[ci])
+			okArg, why := false, ""
+			switch x := a[1].(type) {
+			case *ssa.Extract:
+				cl, isCall := x.Tuple.(*ssa.Call)
+				if isCall && pfs != nil && callee(cl) == pfs && x.Index == 1 {
+					// ... terminated with the type the same call returned
+					ty, isEx := a[2].(*ssa.Extract)
+					okArg = isEx && ty.Tuple == x.Tuple && ty.Index == 2
+					why = "the text returned by format() is terminated with " + pretty(c.term(f, a[2])) + ", not with the string type the same format() returned"
+				} else {
+					why = "the text is " + pretty(c.term(f, a[1]))
+				}
+			case *ssa.UnOp:
+				_, t, fld, isF := fieldAddrOf(x.X)
+				okArg = isF && fld == "Literal" && typeIs(t, "token", "Token")
+				why = "the text is " + pretty(c.term(f, a[1]))
+			case *ssa.Field:
+				okArg = fieldName(x.X.Type(), x.Field) == "Literal" && typeIs(x.X.Type(), "token", "Token")
+				why = "the text is " + pretty(c.term(f, a[1]))
+			default:
+				why = "the text is " + pretty(c.term(f, a[1]))
+			}
+			c.Check(okArg, key, c.W.Pos(ci.Pos()), "the terminated text is a string token's literal or format()'s result", why+": expected the literal of a string token exactly as written, or the text returned by format()")
+		}
+		c.Check(n >= 6, "terminated-content/sites", c.W.FuncPos(ftt), fmt.Sprintf("%d calls of formatTextTerminator examined", n), fmt.Sprintf("expected at least 6 calls of formatTextTerminator, found %d", n))
+	}
 }
 
 func c09c(c *Ctx) {
